@@ -8,7 +8,7 @@ import (
 	"time"
 )
 
-func readMessage(b *pageBuffer, d *decoder) (attributes int8, baseOffset, timestamp int64, key, value Bytes, err error) {
+func readMessage(b *pageBuffer, d *decoder) (magicByte, attributes int8, baseOffset, timestamp int64, key, value Bytes, err error) {
 	md := decoder{
 		reader: d,
 		remain: 12,
@@ -19,7 +19,7 @@ func readMessage(b *pageBuffer, d *decoder) (attributes int8, baseOffset, timest
 
 	crc := uint32(md.readInt32())
 	md.setCRC(crc32.IEEETable)
-	magicByte := md.readInt8()
+	magicByte = md.readInt8()
 	attributes = md.readInt8()
 	timestamp = int64(0)
 
@@ -58,7 +58,7 @@ func (rs *RecordSet) readFromVersion1(d *decoder) error {
 	b := newPageBuffer()
 	defer b.unref()
 
-	attributes, baseOffset, timestamp, key, value, err := readMessage(b, d)
+	magicByte, attributes, baseOffset, timestamp, key, value, err := readMessage(b, d)
 	if err != nil {
 		return err
 	}
@@ -101,8 +101,12 @@ func (rs *RecordSet) readFromVersion1(d *decoder) error {
 				records: make([]Record, 0, 32),
 			}
 
+			// LogAppendTime: the inner messages keep the producer's
+			// timestamps, the wrapper carries the one of all of them.
+			wrapperTime, wrapperLogAppend := timestamp, magicByte == 1 && Attributes(attributes)&logAppendTime != 0
+
 			for !d.done() {
-				_, offset, timestamp, key, value, err := readMessage(b, d)
+				_, _, offset, timestamp, key, value, err := readMessage(b, d)
 				if err != nil {
 					if errors.Is(err, io.ErrUnexpectedEOF) {
 						break
@@ -112,6 +116,9 @@ func (rs *RecordSet) readFromVersion1(d *decoder) error {
 						closeBytes(rec.Value)
 					}
 					return err
+				}
+				if wrapperLogAppend {
+					timestamp = wrapperTime
 				}
 				r.records = append(r.records, Record{
 					Offset: offset,
